@@ -10,7 +10,7 @@ carry the translated schema, without any map.
 
 Per step (SELECT shapes with joins / CTE / subquery / union / expanding IN, INSERT
 single + executemany (insertmanyvalues) + RETURNING + FROM SELECT, UPDATE, DELETE,
-CREATE / DROP TABLE + INDEX + FK with checkfirst), judged:
+CREATE / DROP TABLE + INDEX + FK with checkfirst, CREATE TABLE AS SELECT, CREATE VIEW), judged:
 
 * SQL: the (statement, parameters) stream at the DBAPI of the subject equals the twin's;
 * rows: identical rows, and the payloads carry the code of the schema the map names
@@ -50,7 +50,7 @@ META = {
     "soft_s": {"quick": 45, "thorough": 700},
     "exhaustive": {"quick": False, "thorough": False},
     "require": ["steps", "sql_streams_compared", "rows_compared", "dumps_compared", "cache_hits_other_map", "payload_checks", "ddl_steps", "dml_steps",
-                "imv_steps", "none_key_maps", "writes_observed"],
+                "imv_steps", "none_key_maps", "writes_observed", "ddl_with_select_steps", "empty_map_then_real_map"],
     "assumptions": ["literal-schema statements compile correctly without schema_translate_map (twin)"],
 }
 
@@ -88,9 +88,9 @@ def dump_all(paths):
     for s, p in paths.items():
         con = sqlite3.connect(p, timeout=2.0)
         try:
-            objs = con.execute("SELECT type, name, tbl_name FROM sqlite_master ORDER BY type, name").fetchall()
+            objs = con.execute("SELECT type, name, tbl_name, CASE WHEN type = 'view' THEN sql END FROM sqlite_master ORDER BY type, name").fetchall()
             d = {"__objects__": objs}
-            for ty, name, _ in objs:
+            for ty, name, _, _ in objs:
                 if ty == "table":
                     d[name] = con.execute(f'SELECT * FROM "{name}" ORDER BY 1').fetchall()
             out[s] = d
@@ -335,10 +335,13 @@ def _canon(p):
     return p
 
 
-def run_ddl(rig, eng, spy, T, m, how, op):
+def run_ddl(rig, eng, spy, T, m, how, op, p=None):
     sa = rig.sa
+    from sqlalchemy.sql.ddl import CreateTableAs, CreateView, DropView
+
     mark = spy.mark()
     err = None
+    rows = None
     try:
         e = eng.execution_options(schema_translate_map=m) if (m is not None and how != "connection") else eng
         with e.connect() as conn:
@@ -349,6 +352,23 @@ def run_ddl(rig, eng, spy, T, m, how, op):
                     T["md"].create_all(conn, tables=[T["x"]], checkfirst=True)
                 elif op == "create_direct":
                     T["x"].create(conn, checkfirst=False)
+                elif op in ("ctas", "view"):
+                    # DDL that embeds a SELECT: the created object *and* the tables inside the SELECT
+                    # are subject to the map.  (SQLite views may only reference their own database.)
+                    t, u = T["t"], T["u"]
+                    name = "snap_%d" % p["newid"]
+                    if op == "ctas":
+                        sel = sa.select(t.c.id, t.c.v, u.c.w).join(u, u.c.tid == t.c.id).where(t.c.id <= p["lim"])
+                        el = CreateTableAs(sel, name, schema=t.schema)
+                    else:
+                        sel = sa.select(t.c.id, t.c.v).where(t.c.id.in_(p["ids"]))
+                        el = CreateView(sel, name, schema=t.schema)
+                    conn.execute(el)
+                    rows = [tuple(r) for r in conn.execute(sa.select(el.table).order_by(el.table.c.id))]
+                    if op == "view":
+                        # a stored view text with schema-qualified names makes the database file unreadable
+                        # for the stand-alone observers: the view lives only inside this step
+                        conn.execute(DropView(el.table))
                 elif op == "drop":
                     T["md"].drop_all(conn, tables=[T["x"]], checkfirst=True)
                 else:
@@ -363,7 +383,7 @@ def run_ddl(rig, eng, spy, T, m, how, op):
         # compared with the twin's outcome: an internal error only on the translated side is a divergence
         err = "internal:" + type(ex).__name__
     sql = _stream(spy, mark)
-    return err, None, sql
+    return err, rows, sql
 
 
 def sequence(ctx, sa, length):
@@ -372,6 +392,7 @@ def sequence(ctx, sa, length):
     seen_none = {}   # statement key -> set of None-presence among truthy maps executed OK or attempted
     seen_maps = {}   # statement key -> set of canonical maps already executed (cache populated)
     newid = [1000]
+    primed = set()
     try:
         none_mode = rng.random() < 0.5
         shared_maps = {}
@@ -387,8 +408,11 @@ def sequence(ctx, sa, length):
             if VARIANTS[variant]["t"] is None or VARIANTS[variant]["u"] is None:
                 pass
             c = rng.random()
-            if c < 0.08 and variant != "L4":
-                m = None if rng.random() < 0.5 else {}
+            # an *empty* map ("default tenant") is drawn often at the start of a sequence, so that most
+            # statement shapes are first compiled under {} and later met with a real map
+            p_empty = 0.5 if step < 4 else 0.08
+            if c < p_empty and variant != "L4":
+                m = None if (rng.random() < 0.5 and step >= 4) else {}
             else:
                 m = draw_map(rng, variant, nm)
                 ck = repr(sorted(m.items(), key=repr))
@@ -406,10 +430,12 @@ def sequence(ctx, sa, length):
             newid[0] += 10
             before = dump_all(rig.subj_paths)
             if kindc < 0.12:
-                op = rng.choice(["create", "create", "create_direct", "drop", "drop_direct"])
+                op = rng.choice(["create", "create", "create_direct", "drop", "drop_direct", "ctas", "ctas", "view"])
                 build = None
                 skey = ("ddl", op, variant)
-                err_s, rows_s, sql_s = run_ddl(rig, rig.subj, rig.subj_spy, TL, m, how if how != "statement" else "engine", op)
+                err_s, rows_s, sql_s = run_ddl(rig, rig.subj, rig.subj_spy, TL, m, how if how != "statement" else "engine", op, p)
+                if op in ("ctas", "view"):
+                    ctx.count("ddl_with_select_steps")
                 ctx.count("ddl_steps")
             else:
                 build = rng.choice(pool_builds)
@@ -441,12 +467,15 @@ def sequence(ctx, sa, length):
                 seen_none.setdefault(skey, set()).add(has_none)
             # ---- twin
             if build is None:
-                err_t, rows_t, sql_t = run_ddl(rig, rig.twin, rig.twin_spy, TT, None, "engine", op)
+                err_t, rows_t, sql_t = run_ddl(rig, rig.twin, rig.twin_spy, TT, None, "engine", op, p)
             else:
                 err_t, rows_t, sql_t = run_stmt(rig, rig.twin, rig.twin_spy, build, TT, p, None, "engine")
             desc["twin_sql"] = [s for s, _ in sql_t][:3]
             desc["twin_schemas"] = twin_sch
             mk = repr(sorted((m or {}).items(), key=repr))
+            if m and "[]" in seen_maps.get(skey, ()) and skey not in primed:
+                primed.add(skey)
+                ctx.count("empty_map_then_real_map")
             if seen_maps.get(skey) and mk not in seen_maps[skey] and m:
                 ctx.count("cache_hits_other_map")
                 nontriv = True
@@ -471,6 +500,12 @@ def sequence(ctx, sa, length):
                 if srt(rows_s or []) != srt(rows_t or []):
                     ctx.violation(f"rows-differ:{skey[0]}", f"map={m!r}: subject rows {rows_s[:3] if rows_s else rows_s} twin rows {rows_t[:3] if rows_t else rows_t}", desc)
                 # absolute payload check for the simple shapes
+                if build is None and rows_s and twin_sch["t"] is not None:
+                    # CREATE TABLE AS / CREATE VIEW: the new object must hold the *target* schema's payload
+                    want = CODE[twin_sch["t"]]
+                    ctx.count("payload_checks")
+                    if any(isinstance(r[1], int) and r[1] < 10000 and r[1] // 1000 != want for r in rows_s):
+                        ctx.violation("ddl-select-payload-from-wrong-schema", f"map={m!r}: created object holds {rows_s[:3]}, expected schema code {want}", desc)
                 if build in (st_select_in, st_insert_ret, st_insert_many_ret) and rows_s:
                     if build is st_select_in:
                         want = CODE[twin_sch["t"] or "main"]
